@@ -184,9 +184,11 @@ fn alu(r: &mut Rng, out: &mut Vec<String>) {
     let d = r.below(6);
     let s = r.below(6);
     let t = r.below(6);
-    out.push(match r.below(7) {
+    out.push(match r.below(8) {
         // an executed no-op (BR with no condition bits) still is one instruction
         6 => (*r.pick(&["NOP", "NOP", "NOP #3"])).to_string(),
+        // the word of the next instruction read as data: the same address is accessed twice in a row
+        7 => format!("LD R{d}, #0"),
         0 => format!("ADD R{d}, R{s}, #{}", r.range(-16, 15)),
         1 => format!("ADD R{d}, R{s}, R{t}"),
         2 => format!("AND R{d}, R{s}, R{t}"),
